@@ -1,7 +1,8 @@
 """C04 at driver level: the exit status tells the truth; a reject file exists iff some hunk of that target failed; the reported
 count equals the number of hunks in it."""
 import re
-import drv, rich, scen, strict, gen
+import os
+import drv, rich, scen, strict, gen, emit
 
 
 def run(R):
@@ -79,6 +80,20 @@ def run(R):
     R.dist["driver outcomes"] = dist
     import ties
     ties.t8(R, "T8-driver", cs[:150 if quick else 2500])
+    # failed hunks must end up in the reject file or the run must say it could not save them: a reject file on a full device
+    if os.path.exists("/dev/full"):
+        a = [(b"one", "L"), (b"two", "L"), (b"three", "L")]
+        b = [(b"one", "L"), (b"2", "L"), (b"three", "L")]
+        u = emit.unified_text(gen.make_hunks(a, b, 1) + gen.make_hunks(a, b, 0), b"f", b"f")
+        full = [("failing hunks", box.Tree({b"f": ("f", b"x\ny\nz\n", 0o644), b"p.diff": ("f", u, 0o644)}), [b"-r", b"/dev/full", b"-i", b"p.diff"]),
+                ("refused (read-only, fail)", box.Tree({b"f": ("f", gen.render(a, "keep"), 0o444), b"p.diff": ("f", u, 0o644)}), [b"--read-only=fail", b"-r", b"/dev/full", b"-i", b"p.diff"]),
+                ("refused (directory)", box.Tree({b"f": ("d", 0o755), b"p.diff": ("f", u, 0o644)}), [b"-r", b"/dev/full", b"-i", b"p.diff"])]
+        res = drv.run_many([dict(cut=R.cut, tree=t, argv=av) for _, t, av in full])
+        for (name, t, av), r in zip(full, res):
+            R.evaluations += 1; R.nontrivial.add(("devfull", name))
+            if r.exit != 2 or not r.stderr.strip():
+                R.oracle_fail(f"rejects could not be written ({name}, reject file on a full device) but the run exits {r.exit}: the failed hunks are lost and the exit status hides it",
+                              {"scenario": name, "argv": [x.decode() for x in av], "exit": r.exit, "stdout": r.stdout.decode("latin1")[-300:], "stderr": r.stderr.decode("latin1")[-200:]})
     # exit status 2 is for real trouble: garbage input, bad options, missing patch file
     bad = [([b"-i", b"nonexistent.diff"], {}, b""), ([b"--bogus"], {}, b""), ([b"-F", b"x", b"f"], {b"f": ("f", b"a\n", 0o644)}, b""),
            ([b"f"], {b"f": ("f", b"a\n", 0o644)}, b"this is not a patch\nat all\n"), ([b"-e", b"f"], {b"f": ("f", b"a\n", 0o644)}, b"1c\nx\n.\n")]
